@@ -260,6 +260,7 @@ impl<F: Write + Seek> MiniAllocator<F> {
         while let Some(free_idx) = self.free_mini_sectors.pop() {
             if self.minifat[free_idx as usize] == consts::FREE_SECTOR {
                 self.set_minifat(free_idx, value)?;
+                self.zero_mini_sector(free_idx)?;
                 return Ok(free_idx);
             }
         }
@@ -297,7 +298,15 @@ impl<F: Write + Seek> MiniAllocator<F> {
         let new_mini_sector = self.minifat.len() as u32;
         self.set_minifat(new_mini_sector, value)?;
         self.append_mini_sector()?;
+        self.zero_mini_sector(new_mini_sector)?;
         Ok(new_mini_sector)
+    }
+
+    /// Fills the specified mini sector with zeros, so that no data of a
+    /// previous owner of that part of the mini stream shows through.
+    fn zero_mini_sector(&mut self, mini_sector: u32) -> io::Result<()> {
+        let mut sector = self.seek_within_mini_sector(mini_sector, 0)?;
+        sector.write_all(&[0u8; consts::MINI_SECTOR_LEN])
     }
 
     /// Adds a new mini sector to the end of the mini stream.
